@@ -14,6 +14,7 @@ Oracle, per checked call (failure texts start with a tag):
                 rows (closure under the generator sets of dim3/orbits.rs and their inverses), id = smallest dart;
   [unsew-refused]  an unsew of a sewn dart of a fully embedded closed-face map did not answer `ok`;
   [round-trip]  sew immediately followed by the matching unsew does not restore the four cell partitions;
+  [tx-seq]      a `tx … endtx` block does not answer / leave the map as the same calls run one by one (after `# seq`) do;
   [oracle-model] the cells recomputed after the call are not the ones predicted from the corner/side/face
                 identifications of the call (would be a bug of this file or an unexpected topology).
 A data-clause failure of a 1-sew/1-unsew on a dart of a 3-sewn face is prefixed with `[1-sew-on-3-sewn-face]` when
@@ -34,7 +35,9 @@ from hv import Case
 REQUIRED_THEOREMS = [
     "C05_oneSew3_topology", "C05_twoSew3_topology", "C05_threeSew3_topology",
     "C05_oneUnsew3_topology", "C05_twoUnsew3_topology", "C05_threeUnsew3_topology",
-    "C05_oneSew3_effect", "C05_oneUnsew3_effect", "C05_twoSew3_both", "C05_threeSew3_vertices",
+    "C05_links_keep_data", "C05_oneSew3_effect", "C05_oneUnsew3_effect",
+    "C05_twoSew3_free", "C05_twoSew3_left", "C05_twoSew3_right", "C05_twoSew3_both", "C05_twoUnsew3_effect",
+    "C05_threeSew3_effect", "C05_threeSew3_vertices", "C05_threeUnsew3_effect",
 ]
 
 SPEC = {
@@ -50,8 +53,10 @@ SPEC = {
     ],
     "assumptions": [
         "no fault injection in this check (fc = 0); f64 arithmetic exact on the dyadic coordinates used",
-        "three_sew/three_unsew read the committed state through the non-transactional orbit() (DESIGN.md §8-D4): every checked call is a "
-        "single-operation transaction or a force_ call, where this is invisible; composed transactions are C08's subject",
+        "composed transactions: three_sew/three_unsew walk the two faces through the transaction since /repo f79acf8 (DESIGN.md §8-D4 "
+        "repaired); they are covered by the stream `composed transactions` (faces built or edited by 1-links / 2-sews and 3-sewn or "
+        "3-unsewn in the same `tx … endtx` block: same answer and same final snapshot as the same calls run one by one, whose sews "
+        "are checked calls of the data oracle)",
         "the data clauses are claimed on well-formed, mirrored 3-maps whose faces are closed (1-sew: closed after the call, 1-unsew: "
         "closed before it) and, per cell kind, when no cell takes part in two identifications of the call (the property's proviso)",
     ],
@@ -60,7 +65,8 @@ SPEC = {
             "4 cubes around an edge (ring closing: vertices and edges already shared before the last 3-sew); for every kind of sewn "
             "dart: unsew(1,2,3) then the matching sew back, sew then unsew round trips; the closed glued-faces family (<=3 faces of "
             "1..4 sides, after random 2-/3-sews) x every sew/unsew call, with the real link/unlink replayed on a twin map; random "
-            "sew/unsew histories; `force_` variants mixed in; defined/undefined value patterns over the built-in vertices and the term "
+            "sew/unsew histories; composed transactions (`tx … endtx`) ending in a 3-sew/3-unsew compared with the same calls run one by "
+            "one; `force_` variants mixed in; defined/undefined value patterns over the built-in vertices and the term "
             "storages VTerm ETerm FTerm CTerm VDef (masks). Oracle on the implementation: see the module docstring. "
             "distinct_nontrivial = distinct implementation transcripts.",
     "not_proved": [
@@ -368,6 +374,32 @@ def oracle_c05(case, li):
         return f"[oracle-crash] {type(e).__name__}: {e}"
 
 
+def tx_oracle(lines, li):
+    """layout: setup, snap (A), tx, ops, endtx, snap (B), `# seq`, setup, `# ops`, the same ops one by one (sews wrapped in
+    snaps), snap (C).  All calls ok one by one  =>  `tx ok` and B == C;  first failure E one by one  =>  `tx E` and B == A."""
+    t, e, q, o = lines.index("tx"), lines.index("endtx"), lines.index("# seq"), lines.index("# ops")
+    ops = lines[t + 1:e]
+    seq = [(inp, out) for inp, out in zip(lines[o + 1:-1], li[o + 1:-1]) if inp != "snap"]
+    if [x for x, _ in seq] != ops:
+        return "[oracle-crash] malformed composed-transaction case"
+    A, B, C = li[t - 1], li[e + 1], li[-1]
+    bump("tx-blocks")
+    bad = next(((inp, out) for inp, out in seq if not (out == "ok" or out.startswith("ok "))), None)
+    if bad is None:
+        bump("tx-ok")
+        if not li[e].startswith("tx ok"):
+            return f"[tx-seq] every call succeeds one by one but the transaction answers {li[e]!r}"
+        if B != C:
+            return f"[tx-seq] the transaction {ops} leaves a different map than the same calls one by one: {B} / {C}"
+    else:
+        bump("tx-" + " ".join(bad[1].split()[:2]))
+        if li[e] != "tx " + bad[1]:
+            return f"[tx-seq] one by one `{bad[0]}` is the first call to fail, with {bad[1]!r}, but the transaction answers {li[e]!r}"
+        if A != B:
+            return f"[tx-seq] the transaction answered {li[e]!r} but the map changed"
+    return None
+
+
 def _oracle_c05(case, li):
     if case.oracle != "c05":
         return None
@@ -376,6 +408,10 @@ def _oracle_c05(case, li):
     lines = case.lines
     if len(li) != len(lines):
         return f"expected {len(lines)} output lines, got {len(li)}"
+    if "tx" in lines:
+        f = tx_oracle(lines, li)
+        if f:
+            return f
     first = None         # the first checked call of the case (the one replayed as a link on the twin map)
     last_sew = None      # for the round trip: (dim, darts it sewed, the snapshot after it, partitions before it)
     twin = False
@@ -761,6 +797,96 @@ def histories(count, rng, maxlen=14):
     return cases
 
 
+def tx_case(cid, setup, ops, sig):
+    lines = setup + ["snap", "tx"] + ops + ["endtx", "snap", "# seq"] + setup + ["# ops"]
+    for op in ops:
+        lines += checked(op) if OP_RE.match(op) else [op]
+    return Case(cid, lines + ["snap"], oracle="c05", meta={"sig": sig})
+
+
+def polygon(k):
+    return [[(0, 0, 0)], [(0, 0, 0), (1, 0, 0)], [(0, 0, 0), (1, 0, 0), (0, 1, 0)], [(0, 0, 0), (1, 0, 0), (1, 1, 0), (0, 1, 0)]][k - 1]
+
+
+def tx_cases(count, rng):
+    """composed transactions: (a) two faces built from free darts by 1-links / 1-sews and 3-sewn (3-unsewn again) in the
+    same transaction; (b) two polyhedra: the last 2-sews of their surfaces and the gluing 3-sew (3-unsew, 3-sew again) in
+    one transaction; (c) closed glued faces: a few random sews/unsews/links ending in a 3-sew or 3-unsew"""
+    cases = []
+    sh = closed_shapes()
+    pairs = gens.cell_pairs()
+    for c in range(count):
+        mask = rng.choice(MASKS)
+        kind = c % 3
+        if kind == 0:
+            k = rng.choice([1, 2, 3, 3, 4, 4])
+            k2 = k if rng.random() < 0.9 else rng.choice([1, 2, 3, 4])
+            n = k + k2
+            setup = [f"new 3 {n} {mask}"]
+            pts = polygon(k)
+            coords = rng.random()
+            for d in range(1, n + 1):
+                if coords < 0.6:
+                    # left dart 1+i starts at P_i; right dart k+1+j starts at P_(1-j): coinciding, oppositely oriented faces
+                    pt = pts[(d - 1) % k] if d <= k else pts[(1 - (d - k - 1)) % k]
+                    if rng.random() < 0.9:
+                        setup.append("wv %d %s %s %s" % ((d,) + tuple(gens._tok(x) for x in pt)))
+                elif coords < 0.85 and rng.random() < 0.8:
+                    setup.append(f"wv {d} {gens.dy(rng)} {gens.dy(rng)} {gens.dy(rng)}")
+            setup += attr_lines(rng, range(1, n + 1), mask, rng.choice([1.0, 0.5, 0.0]), rng.random() < 0.8)
+            lk = rng.choice(["link", "link", "sew"])
+            ops = [f"{lk} 1 {d} {d % k + 1}" for d in range(1, k + 1)] + [f"{lk} 1 {k + d} {k + d % k2 + 1}" for d in range(1, k2 + 1)]
+            if rng.random() < 0.5:
+                rng.shuffle(ops)
+            a, r = (1, k + 1) if rng.random() < 0.6 else (rng.randint(1, k), rng.randint(k + 1, n))
+            if rng.random() < 0.2:
+                a, r = r, a
+            ops.append(f"sew 3 {a} {r}")
+            if rng.random() < 0.3:
+                ops.append(f"unsew 3 {rng.randint(1, n)}")
+                if rng.random() < 0.5:
+                    ops.append(f"sew 3 {a} {r}")
+            cases.append(tx_case(f"txa{c}", setup, ops, "tx-fresh-faces"))
+        elif kind == 1:
+            name, pa, pb = pairs[(c // 3) % len(pairs)]
+            ps, n, glue = complex_of([pa, pb] if rng.random() < 0.5 else [pb, pa])
+            setup = [f"new 3 {n} {mask}"] + build_lines(rng, ps, mask, rng.choice([1.0, 1.0, 0.85]), rng.choice([1.0, 0.5, 0.0]),
+                                                        rng.random() < 0.8, check_p=0.0, force_p=0.5)
+            held, ops = [], []
+            for p in ps:
+                es = [(a, p.dart[(v, u)]) for (u, v), a in p.dart.items() if u < v]
+                held += rng.sample(es, rng.choice([0, 1, 2]))
+            for a, b in held:
+                setup.append(f"funsew 2 {a}")
+                ops.append(f"sew 2 {a} {b}")
+            a, b = rng.choice(rng.choice(glue))
+            if rng.random() < 0.5:
+                a, b = b, a
+            if rng.random() < 0.15:
+                a, b = rng.randint(1, n), rng.randint(1, n)
+            ops.append(f"sew 3 {a} {b}")
+            r = rng.random()
+            if r < 0.3:
+                ops.append(f"unsew 3 {rng.choice([a, b])}")
+            elif r < 0.45:
+                ops += [f"unsew 3 {rng.choice([a, b])}", f"sew 3 {a} {b}"]
+            elif r < 0.6 and held:
+                ops.append(f"unsew 2 {held[0][0]}")
+            cases.append(tx_case(f"txp{c}-{name}", setup, ops, "tx-polyhedra"))
+        else:
+            n, rws, faces = gens.faces3_rows([rng.choice(sh) for _ in range(rng.randint(2, 3))])
+            darts = list(range(1, n + 1))
+            setup = [gens.load_line(3, n, mask, rws, [0] * (n + 1))]
+            setup += gens.value_lines(rng, n, mask, dim=3, pv=rng.choice([1.0, 0.8, 0.3]), pa=rng.choice([1.0, 0.6, 0.2]))
+            for _ in range(rng.choice([0, 1, 2, 3])):
+                setup.append(gens.random_op3(rng, darts, alloc=False, weights=[1, 4, 0, 1], dims=(2, 2, 3)))
+            ops = [gens.random_op3(rng, darts, force_p=0.0, alloc=False, weights=[2, 5, 1, 3]) for _ in range(rng.randint(1, 4))]
+            a, b = rng.choice(darts), rng.choice(darts)
+            ops.append(f"sew 3 {a} {b}" if rng.random() < 0.6 and a != b else f"unsew 3 {a}")
+            cases.append(tx_case(f"txf{c}", setup, ops, "tx-glued-faces"))
+    return cases
+
+
 def run(tier, seed):
     rng = random.Random(seed)
     STATS.clear()
@@ -776,6 +902,8 @@ def run(tier, seed):
         parts.append(("closed glued faces <=2 faces x every sew/unsew, twin link", r))
         parts.append(("closed glued faces 3 faces (sample)", hv.campaign(faces_cases(rng, 3, 40, 1, frac=0.6), oracle_c05)))
         parts.append(("random sew/unsew histories", hv.campaign(histories(2500, rng), oracle_c05)))
+        parts.append(("composed transactions ending in a 3-sew/3-unsew vs the same calls one by one",
+                      hv.campaign(tx_cases(1200, rng), oracle_c05)))
     else:
         r = hv.campaign(all_glue_pairs_cases(rng) + all_glue_pairs_cases(rng, mask=13), oracle_c05)
         r["stats"]["exhaustive"] = True
@@ -787,6 +915,8 @@ def run(tier, seed):
         parts.append(("closed glued faces <=2 faces x every sew/unsew, twin link", r))
         parts.append(("closed glued faces 3 faces (sample)", hv.campaign(faces_cases(rng, 3, 120, 3), oracle_c05)))
         parts.append(("random sew/unsew histories", hv.campaign(histories(25000, rng, maxlen=20), oracle_c05)))
+        parts.append(("composed transactions ending in a 3-sew/3-unsew vs the same calls one by one",
+                      hv.campaign(tx_cases(12000, rng), oracle_c05)))
     res = hv.merge_results(parts)
     res["stats"]["oracle_counts"] = dict(sorted(STATS.items()))
     return res
